@@ -65,7 +65,7 @@ func init() {
 			"(2) Store.WriteVolumeNeedle / DeleteVolumeNeedle reach the volume mutators only on the not-read-only edge; " +
 			"(3) readNeedle reaches ReadData only past found && offset!=0 && (not deleted || ReadDeleted) and its not-found/deleted exits return errors; every success return of readNeedle is preceded by the ReadData that hydrates the stored cookie; " +
 			"(4) in the HTTP handlers every body / delete sink is dominated by the equal edge of a cookie comparison whose request-side operand was loaded before the store read; " +
-			"(5) the index is updated only on the nil-error edge of the append. " +
+			"(5) the index is updated only on the nil-error edge of the append; (6) every replay of the index file into a lookup structure (in-memory map, leveldb rebuild, MemDb, EC encoder) removes the key on the tombstone branch. " +
 			"Decides these clauses for all paths; does NOT decide that returned bytes/metadata equal the last write.",
 		Assumptions: []string{"data values and history semantics are out of scope of the static rules", "no-return calls: glog.Fatal*, os.Exit, log.Fatal*"},
 		Trusted:     baseTrusted,
@@ -370,4 +370,71 @@ func runC01(c *eng.Ctx) {
 	}
 	c.Expect("GUARD-handler-cookie", 5)
 	c.Expect("ORDER-append-then-index", 2)
+
+	// (6) SIB-replay: every replay of the index file into a lookup structure applies the
+	// tombstones too: a callback handed to idx.WalkIndexFile that stores the entry's key on the
+	// live branch removes the key on the other branch.
+	nReplay := 0
+	for _, pkg := range []string{"weed/storage", "weed/storage/needle_map", "weed/storage/erasure_coding"} {
+		for _, fn := range c.P.SrcFuncs(pkg) {
+			for _, in := range eng.Find(fn, eng.PlainCallTo("idx.WalkIndexFile")) {
+				mc, ok := eng.Unwrap(eng.Arg(in.(*ssa.Call), 1)).(*ssa.MakeClosure)
+				if !ok {
+					c.Undecided("SIB-replay", eng.FuncName(fn), in.Pos(), "index replay callback is not a function literal")
+					continue
+				}
+				cb := mc.Fn.(*ssa.Function)
+				if len(cb.Params) != 3 {
+					continue
+				}
+				keyed := func(names ...string) []ssa.Instruction {
+					return eng.Find(cb, func(in ssa.Instruction) bool {
+						x, ok := in.(*ssa.Call)
+						if !ok {
+							return false
+						}
+						n := shortName(eng.Callee(x))
+						match := false
+						for _, want := range names {
+							if n == want {
+								match = true
+							}
+						}
+						if !match {
+							return false
+						}
+						for _, a := range x.Call.Args {
+							if eng.Mentions(a, 3, func(v ssa.Value) bool { return eng.IsParamLike(v, cb.Params[0].Name()) }) {
+								return true
+							}
+						}
+						return false
+					})
+				}
+				stores := keyed("Set", "levelDbWrite", "Put")
+				if len(stores) == 0 {
+					continue // a scan that builds no lookup structure (metrics, listings)
+				}
+				c.Touch(cb)
+				nReplay++
+				dels := keyed("Delete", "levelDbDelete")
+				ok2 := len(dels) > 0
+				why := "the callback never removes a key"
+				if ok2 {
+					// the removal is on the branch the store is not
+					hit, _ := eng.Search(eng.Entry(cb), eng.AnyOf(dels), eng.SearchOpt{Barrier: eng.AnyOf(stores)})
+					ok2 = hit != nil
+					why = "the removal is only reachable after the store"
+					// and every path through the callback does one or the other
+					if skip, _ := eng.Search(eng.Entry(cb), eng.IsReturn, eng.SearchOpt{Barrier: eng.Or(eng.AnyOf(dels), eng.AnyOf(stores))}); skip != nil && ok2 {
+						ok2 = false
+						why = "an index entry can pass through the callback without being stored or removed"
+					}
+				}
+				c.Ob("SIB-replay", eng.FuncName(fn)+" applies-tombstones", ok2, in.Pos(), "replaying the index file applies deletions as well as writes (a deleted id stays deleted after a reload / rebuild)"+ifs(!ok2, ": "+why))
+			}
+		}
+	}
+	_ = nReplay
+	c.Expect("SIB-replay", 4)
 }
